@@ -73,9 +73,9 @@ Val loadv(State &S, u64 a, unsigned bytes) {
   Obj *o = findobj(S, a);
   if (!o || o->freed || a + bytes > o->base + o->size) memfault(S, a, bytes, "load");
   if (o->s.empty() && o->uninit.empty() && bytes <= 8) { u64 v = 0; memcpy(&v, &o->b[a - o->base], bytes); Val r; r.c = v; r.w = bytes * 8; return r; }
-  u64 off = a - o->base; bool anys = false, und = false;
+  u64 off = a - o->base; bool anys = false; uint8_t und = 0;
   if (!o->s.empty()) for (unsigned i = 0; i < bytes; i++) if (o->s.count(off + i)) { anys = true; break; }
-  if (!o->uninit.empty()) for (unsigned i = 0; i < bytes; i++) if (o->uninit[off + i]) { und = true; break; }
+  if (!o->uninit.empty()) for (unsigned i = 0; i < bytes && i < 8; i++) if (o->uninit[off + i]) und |= (uint8_t)(1u << i);
   if (!anys) {
     u64 v = 0; memcpy(&v, &o->b[off], bytes > 8 ? 8 : bytes);
     Val r = mk(v, bytes * 8 > 64 ? 64 : bytes * 8); r.w = bytes * 8; r.undef = und;
@@ -98,8 +98,8 @@ void storev(State &S, u64 a, const Val &v, unsigned bytes) {
   if (o->ro) throw Fault{"WRITE-TO-CONST", "store into constant " + o->name};
   u64 off = a - o->base;
   if (!v.e && !v.undef && o->s.empty() && bytes <= 8) { u64 c = v.c; memcpy(&o->b[off], &c, bytes); if (!o->uninit.empty()) memset(&o->uninit[off], 0, bytes); return; }
-  if (!o->uninit.empty()) for (unsigned i = 0; i < bytes; i++) o->uninit[off + i] = v.undef ? 1 : 0;
-  else if (v.undef && opt_uninit) { o->uninit.assign(o->size, 0); for (unsigned i = 0; i < bytes; i++) o->uninit[off + i] = 1; }
+  if (!o->uninit.empty()) for (unsigned i = 0; i < bytes; i++) o->uninit[off + i] = (v.undef >> (i & 7)) & 1;
+  else if (v.undef && opt_uninit) { o->uninit.assign(o->size, 0); for (unsigned i = 0; i < bytes; i++) o->uninit[off + i] = (v.undef >> (i & 7)) & 1; }
   if (!v.sym()) {
     u64 c = v.c; memcpy(&o->b[off], &c, bytes > 8 ? 8 : bytes);
     if (!o->s.empty()) for (unsigned i = 0; i < bytes; i++) o->s.erase(off + i);
@@ -299,8 +299,8 @@ Val symload(State &S, const Val &av0, unsigned by) {
   };
   if (by <= 2 && groups.size() <= 300) {
     z3::expr r = ex(groups[big].v); bool und = false;
-    for (size_t i = 0; i < groups.size(); i++) { if (i == big) continue; r = z3::ite(cond_of(i), ex(groups[i].v), r); und |= groups[i].v.undef; }
-    Val rv = mks(r, by * 8); rv.undef = und; return rv;
+    for (size_t i = 0; i < groups.size(); i++) { if (i == big) continue; r = z3::ite(cond_of(i), ex(groups[i].v), r); und |= groups[i].v.undef != 0; }
+    Val rv = mks(r, by * 8); rv.undef = umask(und, by * 8); return rv;
   }
   if (groups.size() > 256) { u64 a = concfork(S, av, "load with many distinct cells"); return loadv(S, a, by); }
   // fork per distinct value; model side first
@@ -320,8 +320,8 @@ Val symload(State &S, const Val &av0, unsigned by) {
 
 // ---------------------------------------------------------------- arithmetic
 Val zextv(const Val &v, unsigned w) { if (v.w == w) return v; Val r = v.sym() ? mks(z3::zext(ex(v), w - v.w), w) : mk(v.c, w); r.undef = v.undef; return r; }
-Val sextv(const Val &v, unsigned w) { if (v.w == w) return v; Val r = v.sym() ? mks(z3::sext(ex(v), w - v.w), w) : mk((u64)sextw(v.c, v.w), w); r.undef = v.undef; return r; }
-Val truncv(const Val &v, unsigned w) { if (v.w == w) return v; Val r = v.sym() ? mks(ex(v).extract(w - 1, 0), w) : mk(v.c, w); r.undef = v.undef; return r; }
+Val sextv(const Val &v, unsigned w) { if (v.w == w) return v; Val r = v.sym() ? mks(z3::sext(ex(v), w - v.w), w) : mk((u64)sextw(v.c, v.w), w); r.undef = v.undef; if (v.undef & (1u << ((v.w - 1) / 8))) r.undef = umask(true, w); return r; }
+Val truncv(const Val &v, unsigned w) { if (v.w == w) return v; Val r = v.sym() ? mks(ex(v).extract(w - 1, 0), w) : mk(v.c, w); r.undef = v.undef & umask(true, w); return r; }
 
 static void sym_ub(State &S, const z3::expr &bad, const char *kind, const std::string &detail) {
   // is the undefined case reachable?  if so report it with a model and continue on the defined side
@@ -353,7 +353,17 @@ Val binop(State &S, unsigned op, const Val &a, const Val &b, unsigned w, const D
     case Instruction::AShr: if (y >= w) throw Fault{"SHIFT-TOO-WIDE", "ashr by " + std::to_string(y)}; r = mk((u64)(sx >> y), w); break;
     default: die("binop opcode");
     }
-    r.undef = a.undef || b.undef; return r;
+    r.undef = umask(a.undef || b.undef, w);
+    if (a.undef || b.undef) {
+      // byte-precise cases that compilers generate when they blend a partially initialised word
+      auto bytes_where = [&](u64 c, bool want_nonzero_else_notff) { uint8_t mk8 = 0; for (unsigned i = 0; i < (w + 7) / 8 && i < 8; i++) { uint8_t by = (c >> (8 * i)) & 0xff; if (want_nonzero_else_notff ? by != 0 : by != 0xff) mk8 |= (uint8_t)(1u << i); } return mk8; };
+      if (op == Instruction::And && !(a.undef && b.undef)) r.undef = a.undef ? (a.undef & bytes_where(b.c, true)) : (b.undef & bytes_where(a.c, true));
+      else if (op == Instruction::Or && !(a.undef && b.undef)) r.undef = a.undef ? (a.undef & bytes_where(b.c, false)) : (b.undef & bytes_where(a.c, false));
+      else if ((op == Instruction::And || op == Instruction::Or || op == Instruction::Xor)) r.undef = a.undef | b.undef;
+      else if (op == Instruction::Shl && !b.undef && (b.c % 8) == 0) r.undef = (uint8_t)(a.undef << (b.c / 8)) & umask(true, w);
+      else if ((op == Instruction::LShr || op == Instruction::AShr) && !b.undef && (b.c % 8) == 0) r.undef = (uint8_t)(a.undef >> (b.c / 8));
+    }
+    return r;
   }
   z3::expr x = ex(a), y = ex(b);
   auto ctx = (Z3_context)Z;
@@ -379,7 +389,7 @@ Val binop(State &S, unsigned op, const Val &a, const Val &b, unsigned w, const D
   case Instruction::AShr: if (b.sym()) sym_ub(S, z3::uge(y, Z.bv_val(w, w)), "SHIFT-TOO-WIDE", "symbolic ashr"); r = mks(z3::ashr(x, y), w); break;
   default: die("binop opcode (symbolic)");
   }
-  r.undef = a.undef || b.undef; return r;
+  r.undef = umask(a.undef || b.undef, w); return r;
 }
 Val icmp(unsigned p, const Val &a, const Val &b) {
   unsigned w = a.w; Val res;
@@ -406,5 +416,5 @@ Val icmp(unsigned p, const Val &a, const Val &b) {
     }
     res = mks(z3::ite(r, Z.bv_val(1, 1), Z.bv_val(0, 1)), 1);
   }
-  res.undef = a.undef || b.undef; return res;
+  res.undef = (a.undef || b.undef) ? 1 : 0; return res;
 }
